@@ -272,6 +272,17 @@ def decl_search():
     want = {"small": "n<=3", "same": "n==4", "differ": "n/=2", "big": "merge(1,2,n>=2)==1", "op": "'a<=b'"}
     if got != want:
         return {"confirmed": True, "input": {"source": src}, "actual": got, "expected": want, "how": "real parser; initial values given by PARAMETER statements (blanks aside)"}
+    # attribute statements naming several entities: each one gets its own bounds, and one without bounds gets none
+    src = ("module m\n  real :: work, scale, first, last, flag, cnt\n  integer, parameter :: n = 4\n  pointer :: work(:,:), scale\n  allocatable :: first(:), last\n  dimension flag(n), cnt\n  target :: cnt\nend module m\n")
+    try:
+        m = realrun.parse_source(src).modules[0]
+        shape = lambda v: v.dimension or next((a[len("dimension"):].strip() for a in v.attribs if a.startswith("dimension")), "")
+        got = {v.name: (shape(v), sorted(a for a in v.attribs if not a.startswith("dimension"))) for v in m.variables if v.name != "n"}
+    except Exception as ex:
+        got = f"{type(ex).__name__}: {ex}"
+    want = {"work": ("(:,:)", ["pointer"]), "scale": ("", ["pointer"]), "first": ("(:)", ["allocatable"]), "last": ("", ["allocatable"]), "flag": ("(n)", []), "cnt": ("", ["target"])}
+    if got != want:
+        return {"confirmed": True, "input": {"source": src}, "actual": got, "expected": want, "how": "real parser; (dimension, attributes) of variables shaped by POINTER / ALLOCATABLE / DIMENSION / TARGET statements"}
     # the suffix of a function statement: RESULT and BIND in either order; the binding label is the text inside bind(...) and nothing else
     for stmt, bindc, res in (('function f(x) bind(c, name="f_c") result(rr)', 'c, name="f_c"', "rr"), ('function f(x) result(rr) bind(c, name="f_c")', 'c, name="f_c"', "rr"),
                              ("function f(x) bind(c) result(rr)", "c", "rr"), ("function f(x) result(rr)", None, "rr"), ("function f(x) bind(C, name='q(1)')", "C, name='q(1)'", "f")):
@@ -284,6 +295,31 @@ def decl_search():
         if got != (bindc, res):
             return {"confirmed": True, "input": {"statement": stmt}, "actual": {"bind": got[0], "result": got[1]}, "expected": {"bind": bindc, "result": res},
                     "how": "real parser; suffix of a function statement (the heading shows `bind(<label>)`)"}
+    return None
+
+
+def pages_are_utf8():
+    """the pages declare `<meta charset="utf-8">`: what is on disk is UTF-8 whatever the encoding of the *sources* - a literal with repeated blanks (shown with non-breaking
+    blanks) or a non-ASCII character reads back as written"""
+    from bounded import site
+    import os
+    files = {"src/m.f90": "module m\n  !! module doc\n  character(len=*), parameter :: banner = \"==  <init>  ==\"\n    !! banner doc\n  character(len=*), parameter :: word = 'caf\xe9'\n    !! word doc\nend module m\n".encode("latin-1")}
+    with site.site(files, "src_dir: ./src\noutput_dir: ./doc\nencoding: latin-1\nsearch: false\n") as (pd, status):
+        out = os.path.join(pd, "doc")
+        if not status.startswith("ok"):
+            return {"confirmed": True, "input": {"encoding": "latin-1"}, "actual": status[:300], "expected": "FORD runs", "how": "full FORD run"}
+        page = os.path.join(out, "module", "m.html")
+        raw = open(page, "rb").read()
+        try:
+            text = raw.decode("utf-8")
+        except UnicodeDecodeError as e:
+            return {"confirmed": True, "input": {"source encoding": "latin-1", "literal": "==  <init>  =="}, "actual": f"module/m.html is not UTF-8: {e}", "expected": "a UTF-8 page (it declares charset=utf-8)",
+                    "how": "full FORD run with encoding: latin-1; bytes of the module page"}
+        import html as _h
+        plain = _h.unescape(re.sub(r"<[^>]+>", "", text)).replace("\xa0", " ")
+        if "==  <init>  ==" not in plain or "caf\xe9" not in plain:
+            return {"confirmed": True, "input": {"source encoding": "latin-1"}, "actual": [l for l in plain.splitlines() if "init" in l or "caf" in l][:4], "expected": "the literals `==  <init>  ==` and `caf\xe9` as written",
+                    "how": "full FORD run with encoding: latin-1; text of the module page read with the charset it declares"}
     return None
 
 
